@@ -4,6 +4,7 @@
    produced by any matcher/option.  Integers are unbounded: after the widening repair the code never
    computes a label in a fixed width, so the statements hold for every dtype and instance count. *)
 From Pan Require Import Base.Common Model.Metrics Model.Relabel Proofs.RelabelFacts Proofs.C04Proofs.
+From Pan Require Import Proofs.RelabelSeq.
 Open Scope Z_scope.
 
 Definition lm_of (M : lmap) (a : arr2) : lmap := full_map M (pred_labels_of a) (maxZ (ref_labels_of a)).
@@ -39,3 +40,16 @@ Example C04_nonvacuous :
   map_instance_labels [(7, 255)] a = [(255, 255); (255, 255); (0, 257); (3, 0); (0, 256)]
   /\ pred_labels_of a = [4; 7; 9] /\ ref_labels_of a = [3; 255].
 Proof. vm_compute. repeat split; reflexivity. Qed.
+
+(* ---- the label map has to be applied AT ONCE (the lookup table of _map_labels is indexed by the ORIGINAL values): applying its entries
+   one after the other to the array being rewritten gives the same result exactly when no entry's new label is the old label of a
+   later entry -- and a matching does produce such chains (prediction 5 -> reference 7 while another prediction is labelled 7) *)
+Theorem C04_sequential_relabelling_equals_table_without_chains : forall lm a,
+  chain_free lm -> relabel_seq lm a = relabel lm a.
+Proof. exact relabel_seq_equals_table. Qed.
+
+Theorem C04_sequential_relabelling_refuted_on_chains :
+  let lm := [(5, 7); (7, 9)] in let a : arr2 := [(7, 5); (9, 7)] in
+  relabel lm a = [(7, 7); (9, 9)] /\ relabel_seq lm a = [(7, 9); (9, 9)].
+Proof. exact relabel_seq_chain_differs. Qed.
+
